@@ -37,8 +37,12 @@ C04Staged == {[calls |-> <<a, b, c>>, rel |-> "staged"] :
                  a \in Variants({"Rpc", "QC", "CorrStream", "Mcast"}, {"SSS", "RRR", "GGG"}, {0}),
                  b \in Variants({"Rpc", "QC", "Mcast"}, {"HHH"}, {0}),
                  c \in Variants({"Rpc", "Ucast"}, {"FFF"}, {0})}
+\* a streaming handler that holds the connection while it sends several items back to back
+\* (the server's sender goroutine is busy): sending is not releasing
+C04Items == {[calls |-> <<a, b>>, rel |-> "fifo"] :
+                a \in Variants({"CorrStream", "CorrStreamCustom"}, {"III", "IFF", "FIF"}, {0}), b \in C04Second}
 C04 == {[calls |-> <<a, b>>, rel |-> "fifo"] : a \in C04First, b \in C04Second}
-       \cup C04Staged
+       \cup C04Staged \cup C04Items
        \cup (IF Len3 THEN {[calls |-> <<a, b, c>>, rel |-> "lifo"] :
                               a \in Variants({"QC", "Ucast"}, {"HHH", "NNN", "GGG"}, {0}),
                               b \in Variants({"Rpc", "Mcast", "CorrStream"}, {"HHH", "RRR", "FFF"}, {0, 1}),
